@@ -206,6 +206,22 @@ package rac
 //@   ensures[sticky] implies(old(w.err) != nil, result1 == old(w.err) && unchanged(w.uncompressed.prev) && unchanged(mem(w.uncompressed.prev)))
 //@   modifies *w, mem(w.resourcesIDs), mem(w.uncompressed.prev), mem(w.chunkWriter.resourcesCOffCLens)
 
+//@ func iface rac.CodecWriter.Close
+//@   trusted_contract rac.CodecWriter.Close: touches nothing the Writer can see; result arbitrary
+//@   pure
+
+// Writer.Close: the first failure (stored earlier, or met while flushing, writing the
+// index or closing the codec) is returned and stays stored; nil is returned only when
+// nothing failed, and then the Writer is marked closed. Close itself never panics.
+//@ func (*Writer).Close
+//@   prop C13
+//@   requires w != nil && wInit(w) && wf(w.uncompressed) && len(w.uncompressed.curr) == 0 && w.uncompressed.p == 0 && base(w.uncompressed.curr) != base(w.uncompressed.prev) && w.err != errInternalShortCSize && cwOK(w.chunkWriter)
+//@   requires[closedmeanserr] implies(w.closed, w.err != nil)
+//@   ensures[again] implies(old(w.closed), result == old(w.err) && unchanged(w.err))
+//@   ensures[sticky] implies(old(w.err) != nil, result == old(w.err) && unchanged(w.err))
+//@   ensures[reported] w.closed && implies(result == nil, w.err == errAlreadyClosed) && implies(result != nil, w.err == result)
+//@   modifies *w, mem(w.resourcesIDs), mem(w.chunkWriter.resourcesCOffCLens)
+
 // ---- chunk_writer.go ----
 // Sticky first error: a stored error is returned again before anything else
 // happens, and every failure of the underlying io.Writer / TempFile / Seeker is
@@ -281,6 +297,44 @@ package rac
 //@   ensures[stored] implies(result != nil, w.err == result || result == errInvalidCodec) && result != errInternalShortCSize
 //@   ensures[size] implies(result == nil && dRangeSize > 0, w.dFileSize == old(w.dFileSize) + dRangeSize && len(w.leafNodes) == old(len(w.leafNodes)) + 1)
 //@   ensures[resources] unchanged(w.resourcesCOffCLens)
+//@   modifies *w
+
+// ChunkWriter.Close. The index tree (gather, calcEncodedSize, writeIndex: slices of
+// struct nodes that alias each other) is outside the engine's memory model; those
+// three are only framed. What is proved here is the error discipline of Close itself.
+//@ func gather
+//@   prop C13
+//@   trusted index tree construction: not verified, framed only (reads nodes, returns a new root)
+//@   requires len(nodes) > 0
+//@   pure
+
+//@ func (*wNode).calcEncodedSize
+//@   prop C13
+//@   trusted index size computation: not verified, framed only (sets cOffsetCLength of branch nodes, all of which gather allocated and only the root is visible to the caller; leaf nodes - the caller's leafNodes - have arity 0 and are not written); assumed without proof: the index adds at most 2^44 bytes (fewer than 2^31 nodes of at most 4096 bytes)
+//@   requires n != nil
+//@   ensures[assumed] result >= accumulator && result - accumulator <= 0x100000000000
+//@   modifies *n
+
+//@ func (*nodeWriter).writeIndex
+//@   prop C13
+//@   trusted index serialisation: not verified, framed only (fills its own buffer and calls the io.Writer)
+//@   requires w != nil && n != nil
+//@   modifies *w
+
+//@ func (*ChunkWriter).roundUpToCPageBoundary
+//@   prop C13
+//@   mode bv
+//@   wraps add sub
+//@   requires w != nil && x <= 0x3FFFFFFFFFFFFF && w.CPageSize <= 0xFFFFFFFFFFFF
+//@   ensures result <= x + w.CPageSize
+//@   pure
+
+//@ func (*ChunkWriter).Close
+//@   prop C13
+//@   requires cwOK(w)
+//@   ensures[sticky] implies(old(w.err) != nil, result == old(w.err) && unchanged(w.err))
+//@   ensures[stored] implies(result != nil, w.err == result)
+//@   ensures[closed] implies(result == nil, w.err == errAlreadyClosed)
 //@   modifies *w
 
 // Range helpers (used across packages; substituted at call sites).
